@@ -429,6 +429,14 @@ func checkC07(c *runCtx) {
 	for _, s := range specs {
 		vtSearch(c, p, vtSpec{Name: s.name, Model: "data", Cfg: s.cfg, Deadline: dl})
 	}
+	// "on the same transport": one peer address over UDP (known) and TCP (never authenticated)
+	if os.Getenv("VERIF_ONLY") == "" {
+		probs, n := c07crossTransport(c.t)
+		c.add("transitions", n)
+		for _, pr := range probs {
+			c.violation("", "same IP:port over UDP and TCP: "+pr, map[string]any{"part": "cross-transport"})
+		}
+	}
 	// the same statement over a TCP candidate: framed data in both directions, every segmentation of a frame
 	if os.Getenv("VERIF_ONLY") == "" || strings.Contains("tcp", os.Getenv("VERIF_ONLY")) {
 		depth := 7
